@@ -48,7 +48,7 @@ def probes():
     return ["file_rewritten", "header_rewritten", "header_with_defaults_rewritten", "header_with_star_rewritten",
             "docstring_replaced", "docstring_added", "async_def", "nested_def", "decorated_def", "method",
             "file_unchanged", "io_fault_fired", "line_fault_fired", "fault_after_write_open", "second_pass",
-            "multiline_header"]
+            "multiline_header"] + ["lexical_shape_" + x for x in ("indent2", "tab", "rawdoc", "comment_before_doc", "crlf")]
 
 
 # ------------------------------------------------------------------------------------ generators
@@ -142,7 +142,60 @@ def plans(draw, n_seeded_lines=12):
     return {"module": draw(module_spec()), "cmds": draw(st.lists(command(), min_size=1, max_size=3)),
             "fault_cmd": draw(st.integers(0, 2)), "line_fracs": draw(st.lists(st.floats(0, 0.9999), min_size=n_seeded_lines,
                                                                               max_size=n_seeded_lines)),
-            "exc": draw(st.sampled_from(("RuntimeError", "MemoryError", "OSError", "RecursionError")))}
+            "exc": draw(st.sampled_from(("RuntimeError", "MemoryError", "OSError", "RecursionError"))),
+            # a whole-file lexical shape; each non-None shape is a listed known finding, drawn rarely
+            "shape": draw(st.sampled_from((None,) * 9 + SHAPES))}
+
+
+SHAPES = ("indent2", "tab", "rawdoc", "comment_before_doc", "crlf")
+SHAPE_COMMENT = "# note placed before the docstring"
+
+
+def apply_shape(text, shape):
+    """Lexical variants of the same program (all valid Python with the same AST, comments aside)."""
+    if not shape:
+        return text
+    if shape in ("indent2", "tab"):
+        unit = "  " if shape == "indent2" else "\t"
+        out, in_doc = [], False
+        for ln in text.split("\n"):
+            n = len(ln) - len(ln.lstrip(" "))
+            out.append(unit * (n // 4) + " " * (n % 4) + ln[n:] if ln.strip() else ln)
+        return "\n".join(out)
+    if shape == "crlf":
+        return text.replace("\n", "\r\n")
+    lines = text.split("\n")
+    for i, ln in enumerate(lines):
+        if ln.strip() == '\"\"\"' and i and lines[i - 1].rstrip().endswith(":") and "def " in lines[i - 1]:
+            if shape == "rawdoc":
+                lines[i] = ln.replace('\"\"\"', 'r\"\"\"', 1)
+            else:
+                lines.insert(i, ln[:len(ln) - len(ln.lstrip())] + SHAPE_COMMENT)
+            break
+    return "\n".join(lines)
+
+
+def unshape(text, shape):
+    """Inverse of apply_shape on text produced from a shaped file (used for the counterfactual)."""
+    if shape == "indent2":
+        out = []
+        for ln in text.split("\n"):
+            n = len(ln) - len(ln.lstrip(" "))
+            out.append("    " * (n // 2) + " " * (n % 2) + ln[n:] if ln.strip() else ln)
+        return "\n".join(out)
+    if shape == "tab":
+        out = []
+        for ln in text.split("\n"):
+            n = len(ln) - len(ln.lstrip("\t"))
+            out.append("    " * n + ln[n:])
+        return "\n".join(out)
+    if shape == "crlf":
+        return text.replace("\r\n", "\n")
+    if shape == "rawdoc":
+        return text.replace('r\"\"\"', '\"\"\"')
+    if shape == "comment_before_doc":
+        return "\n".join(ln for ln in text.split("\n") if ln.strip() != SHAPE_COMMENT)
+    return text
 
 
 # -------------------------------------------------------------------------------------- renderer
@@ -369,6 +422,26 @@ def _is_subsequence(need, have):
 
 
 def check_ok(before, after, info, counterfactual=None):
+    """A1-A4 plus, for a file in one of the listed lexical shapes, the causal classification of each violation:
+    `shape_is_cause` names the shape iff the same text with the shape undone converts without a violation of that clause."""
+    v = _check_ok(before, after, info, counterfactual)
+    shape = info.get("shape")
+    if v and shape and counterfactual is not None:
+        plain = unshape(before, shape)
+        if plain != before:
+            try:
+                ast.parse(plain)
+                cf_after = counterfactual(plain)
+                cf = _check_ok(plain, cf_after, dict(info, shape=None), counterfactual)
+                bad = {x["clause"] for x in cf}
+            except (SyntaxError, ValueError, TypeError):
+                bad = {"A1", "A2", "A3", "A4"}
+            for x in v:
+                x["sig"] = dict(x["sig"], shape_is_cause=shape if x["clause"] not in bad else None)
+    return v
+
+
+def _check_ok(before, after, info, counterfactual=None):
     """A1-A4 on a command that returned normally without any fault.  `counterfactual(text)` runs the same command
     on another text in a scratch world and returns the resulting text (used to decide, causally, whether a listed
     known-bad shape is what broke the result)."""
@@ -496,6 +569,24 @@ def _features(spec):
     return f
 
 
+def _without_item_shapes(module):
+    import copy
+    m = copy.deepcopy(module)
+
+    def fix(it):
+        if it.get("kind") == "func":
+            it["one_line"] = False
+            it["header_comment"] = False
+            if it.get("nested"):
+                fix(it["nested"])
+        elif it.get("kind") == "class":
+            for x in it.get("methods", ()):
+                fix(x)
+    for it in m["items"]:
+        fix(it)
+    return m
+
+
 def fault_points(reh, plan, tier_lines):
     """The enumeration of where this command can fail, from its fault-free traced rehearsal."""
     pts = []
@@ -545,8 +636,16 @@ def simulate(plan, tier_lines=12, per_line=False):
     def bump(d, k, n=1):
         d[k] = d.get(k, 0) + n
 
-    src = render_module(plan["module"])
+    shape = plan.get("shape")
+    if shape:
+        # one listed known-bad shape per file: with a lexical shape the per-definition shapes are switched off, so that
+        # every counterfactual isolates exactly one cause
+        plan = dict(plan, module=_without_item_shapes(plan["module"]))
+    src = apply_shape(render_module(plan["module"]), shape)
     feats = _features(plan["module"])
+    feats["shape"] = shape
+    if shape:
+        bump(probe, "lexical_shape_" + shape)
     world = SimWorld(tag="c07")
     world.write_files({"m.py": src})
     history = []
@@ -705,7 +804,8 @@ def _enumerate_faults(world, plan, ci, cmd, op, cp, before, reh, stats, bump, ti
                               " (now empty)" if not after else ""),
                           "sig": {"what": "fault", "seam": flt["seam"],
                                   "event": where.get("event", "line"), "site": site},
-                          "trace": {"kind": "c07-plan", "plan": p2, "files": {"m.py": render_module(plan["module"])}}})
+                          "trace": {"kind": "c07-plan", "plan": p2,
+                                    "files": {"m.py": apply_shape(render_module(plan["module"]), plan.get("shape"))}}})
     return viols
 
 
